@@ -796,9 +796,23 @@ LAT_PROFILES = ["error_before_success", "success_before_error", "random", "insta
 TIMEOUT_Q = int(TIMEOUT_S * 4)
 
 
-def eff_outcome(e):
+def eff_outcome(e, tq=TIMEOUT_Q):
     """model/oracle outcome of a script entry: no reply before the timeout = timeout, whatever comes later"""
-    return 4 if (e[1] == 4 or e[2] > TIMEOUT_Q) else e[1]
+    return 4 if (e[1] == 4 or e[2] > tq) else e[1]
+
+
+def fit_script(rng, script, tq):
+    """adapt a script drawn for the 20-quarter timeout to a timeout of tq quarter seconds: no reply exactly at the
+    timeout, some replies in the last quarter second before it (a truncated timeout would miss them)"""
+    out = []
+    for e in script:
+        lat = e[2]
+        if lat == tq:
+            lat = tq - 1
+        if e[1] != 4 and 0 < lat < tq and rng.random() < 0.3:
+            lat = tq - 1
+        out.append([e[0], e[1], lat, e[3]])
+    return out
 
 
 def gen_script(rng, ids, profile):
@@ -1090,7 +1104,8 @@ def run_wired(case) -> dict:
         results_rx = results.new_receiver(limit=50)
         status = Broadcast(name="status", resend_latest=True)
         status_rx = status.new_receiver(limit=1000)
-        manager = I.BatteryManager(status.new_sender(), results.new_sender(), timedelta(seconds=TIMEOUT_S))
+        tq = case.get("timeout_q", TIMEOUT_Q)
+        manager = I.BatteryManager(status.new_sender(), results.new_sender(), timedelta(seconds=tq / 4.0))
         await manager.start()
         health: dict[int, str | None] = {b: None for b in wiring}
 
@@ -1146,7 +1161,7 @@ def run_wired(case) -> dict:
             mine = [r for r in got if getattr(r, "request", None) is request]
             first = obs_of_result(mine[0], I, request) if mine else {"kind": "none" if st == "ok" else st}
             retained.append((mine[0] if mine else None, request))
-            sc = {e[0]: eff_outcome(e) for e in h["script"]}
+            sc = {e[0]: eff_outcome(e, tq) for e in h["script"]}
             out.append({"first": first, "calls": [[c, jq(p)] for c, p in api.calls], "outs": [sc.get(c, 0) for c, _ in api.calls],
                         "n_results": len(mine), "stray_results": len(got) - len(mine)})
         await asyncio.sleep(1.0)
@@ -1189,7 +1204,8 @@ class WiredBatStream(Stream):
         for _ in range(140 if tier == "quick" else 2500):
             w = rng.choice(WIRINGS)
             invs = sorted({i for v in w.values() for i in v})
-            case = {"wiring": [[b, list(i)] for b, i in w.items()],
+            tq = rng.choice([20, 20, 10, 10, 3])
+            case = {"timeout_q": tq, "wiring": [[b, list(i)] for b, i in w.items()],
                     "bats": [[b, rng.choice([15, 30, 40, 55, 70, 85]), rng.choice([5000, 10000, 20000])] for b in w],
                     "inv_bounds": [[i, rng.choice([400, 700, 1000, 1500])] for i in invs], "history": []}
             groups = []
@@ -1208,6 +1224,7 @@ class WiredBatStream(Stream):
                 script = [[e[0], e[1], max(e[2], 1) if e[1] != 4 else e[2], e[3]] for e in gen_script(rng, ginvs, prof)]
                 if rng.random() < 0.4:
                     script = [[e[0], 0, e[2] if e[2] <= 12 else 1, 0] for e in script]
+                script = fit_script(rng, script, tq)
                 h = {"req": jq(fr(rng.choice([100, 300, 750, 900, 1500, 3000, 5000, [1001, 7]])) * rng.choice([1, -1])), "ids": ids,
                      "script": script, "profile": prof}
                 if rng.random() < 0.75:
@@ -1273,9 +1290,12 @@ class WiredBatStream(Stream):
         return json.dumps([case["wiring"], case["bats"], case["inv_bounds"], [[h["req"], h["ids"], h["script"], h.get("health"), h.get("recover")] for h in case["history"]]])
 
     def labels(self, case, obs):
-        lb = [f"requests={len(case['history'])}"]
+        lb = [f"requests={len(case['history'])}", f"timeout_quarter_seconds={case.get('timeout_q', TIMEOUT_Q)}"]
         for h, o in zip(case["history"], obs["reqs"]):
             lb.append("kind=" + o["kind"])
+            tq = case.get("timeout_q", TIMEOUT_Q)
+            if tq % 4 and any(e[1] == 0 and (tq // 4) * 4 < e[2] < tq for e in h["script"]):
+                lb.append("ok_reply_in_the_last_fraction_of_a_second_before_the_timeout")
             if h.get("health"):
                 lb.append("health_change_in_flight=" + h["health"][1])
                 m = self._map(case)
@@ -1307,3 +1327,181 @@ class WiredBatStream(Stream):
                     yield {**case, "history": hs[:i] + [{**h, "script": h["script"][:k] + [[e[0], 0, 1, 0]] + h["script"][k + 1:]}] + hs[i + 1:]}
             if h.get("recover"):
                 yield {**case, "history": hs[:i] + [{k: v for k, v in h.items() if k != "recover"}] + hs[i + 1:]}
+
+
+# ----------------------------------------------------------------------------- PV manager built by its constructor
+def run_wired_pv(case) -> dict:
+    """the REAL PVManager (constructor, real ComponentPoolStatusTracker + PVInverterStatusTrackers fed by data
+    streams, real results channel) on a fake microgrid; a history of requests; timeout from the case"""
+    I = _imports()
+    cm, Broadcast, Graph = _wired_imports()
+    invs = [i for i, _ in case["invs"]]
+    _, inv_msg = _wired_msgs({"bats": [], "inv_bounds": [[i, jq(-fr(b))] for i, b in case["invs"]]}, cm)
+    tq = case.get("timeout_q", TIMEOUT_Q)
+
+    async def main():
+        api = WiredApi(I, set(), set(invs), Broadcast)
+        comps = {cm.Component(1, cm.ComponentCategory.GRID), cm.Component(2, cm.ComponentCategory.METER)}
+        conns = {cm.Connection(1, 2)}
+        for i in invs:
+            comps.add(cm.Component(i, cm.ComponentCategory.INVERTER, cm.InverterType.SOLAR))
+            conns.add(cm.Connection(2, i))
+        I.cm._CONNECTION_MANAGER = SimpleNamespace(api_client=api, component_graph=Graph(comps, conns))
+        results = Broadcast(name="results")
+        results_rx = results.new_receiver(limit=50)
+        status = Broadcast(name="status", resend_latest=True)
+        status_rx = status.new_receiver(limit=1000)
+        manager = I.PVManager(status.new_sender(), results.new_sender(), timedelta(seconds=tq / 4.0))
+        await manager.start()
+        bad: set = set()
+
+        async def send_all():
+            for i in invs:
+                await api.inv_ch[i].new_sender().send(inv_msg(i, "inv_error" if i in bad else None))
+        await send_all()
+        working: set = set()
+        try:
+            while working != set(invs):
+                working = set((await asyncio.wait_for(status_rx.receive(), 5.0)).working)
+        except asyncio.TimeoutError:
+            pass
+        out, retained = [], []
+        for h in case["history"]:
+            for i in h.get("recover", []):
+                bad.discard(i)
+            await send_all()
+            await asyncio.sleep(0.05)
+            usable = sorted(set(manager._component_pool_status_tracker.get_working_components(set(h["ids"]))))
+            api.script = {e[0]: (e[1], e[2], e[3] if len(e) > 3 else 0) for e in h["script"]}
+            api.calls = []
+            if h.get("health"):
+                victim, _, at = h["health"]
+
+                async def change_health(victim=victim):
+                    bad.add(victim)
+                    await api.inv_ch[victim].new_sender().send(inv_msg(victim, "inv_error"))
+                api.event = (at, change_health)
+            request = I.Request(power=I.Power.from_watts(X(fr(h["req"]))), component_ids=frozenset(h["ids"]))
+            try:
+                await manager.distribute_power(request)
+                st = "ok"
+            except Exception as exc:  # noqa: BLE001
+                st = "raise:" + type(exc).__name__
+            api.event = None
+            await asyncio.sleep(0.5)
+            got = []
+            while True:
+                try:
+                    got.append(await asyncio.wait_for(results_rx.receive(), 0.01))
+                except asyncio.TimeoutError:
+                    break
+            mine = [r for r in got if getattr(r, "request", None) is request]
+            first = obs_of_result(mine[0], I, request) if mine else {"kind": "none" if st == "ok" else st}
+            retained.append((mine[0] if mine else None, request))
+            sc = {e[0]: eff_outcome(e, tq) for e in h["script"]}
+            out.append({"first": first, "calls": [[c, jq(p)] for c, p in api.calls], "outs": [sc.get(c, 0) for c, _ in api.calls],
+                        "usable": usable, "n_results": len(mine), "stray_results": len(got) - len(mine)})
+        await asyncio.sleep(1.0)
+        for o, (res, request) in zip(out, retained):
+            final = obs_of_result(res, I, request) if res is not None else dict(o["first"])
+            o.update(final)
+            o["changed_after_sending"] = final != o["first"]
+            if not o["changed_after_sending"]:
+                del o["first"]
+        await manager.stop()
+        return out
+
+    (st, res), _ = _run(main())
+    if st == "raise":
+        return {"reqs": [], "error": res}
+    return {"reqs": res}
+
+
+class WiredPVStream(Stream):
+    name = "wired_pv"
+    coq_header = (PV_HEADER.replace("Definition check ", "Definition check1 ") +
+                  "Definition check (cs : list (pv_in * result * list (Z * Q))) : bool := forallb check1 cs.\n")
+    _single = PVStream()
+
+    def gen(self, rng, tier):
+        for _ in range(110 if tier == "quick" else 2000):
+            n = rng.choice([1, 2, 3, 4])
+            ids = rng.sample(range(40, 60), n)
+            bounds = rng.sample([-100, -150, -300, -500, -750, -1000, -2000], n)      # distinct: no ties in the sort
+            tq = rng.choice([20, 10, 10, 3])
+            case = {"timeout_q": tq, "invs": [[i, b] for i, b in zip(ids, bounds)], "history": []}
+            for _ in range(rng.choice([1, 1, 2, 3])):
+                sel = sorted(ids if rng.random() < 0.7 else rng.sample(ids, rng.randint(1, n)))
+                prof = rng.choice(LAT_PROFILES)
+                script = fit_script(rng, [[e[0], e[1], max(e[2], 1) if e[1] != 4 else e[2], e[3]] for e in gen_script(rng, sel, prof)], tq)
+                tot = sum(b for i, b in zip(ids, bounds) if i in sel)
+                h = {"req": jq(Fraction(tot) * fr(rng.choice([[1, 2], 1, [3, 2], [1, 3], [9, 10]]))) if rng.random() < 0.6
+                     else jq(-fr(rng.choice(NUMS))), "ids": sel, "script": script, "profile": prof}
+                if rng.random() < 0.5:
+                    h["health"] = [rng.choice(sel), "inv_error", rng.choice([0, 0, 1])]
+                if case["history"] and rng.random() < 0.5:
+                    h["recover"] = [x["health"][0] for x in case["history"] if "health" in x]
+                case["history"].append(h)
+            yield case
+
+    def run_impl(self, case):
+        return run_wired_pv(case)
+
+    def _subs(self, case, obs):
+        b = {i: v for i, v in case["invs"]}
+        for h, o in zip(case["history"], obs["reqs"]):
+            yield {"req": h["req"], "ids": h["ids"], "tracker": True, "working": [[i, jq(b[i])] for i in o["usable"]], "out": o["outs"]}, o
+
+    def to_coq(self, case, obs):
+        return "[" + "; ".join(self._single.to_coq(sub, o) for sub, o in self._subs(case, obs)) + "]"
+
+    def show_term(self, case, obs):
+        return "[" + "; ".join(self._single.show_term(sub, o) for sub, o in self._subs(case, obs)) + "]"
+
+    def oracle(self, case, obs):
+        if obs.get("error"):
+            return [{"what": f"result: driving the manager raised {obs['error']}", "finding": None}]
+        out = []
+        for j, ((sub, o), h) in enumerate(zip(self._subs(case, obs), case["history"])):
+            pre = f"request {j} ({fr(h['req'])} W to PV inverters {h['ids']}, timeout {case.get('timeout_q', TIMEOUT_Q) / 4} s), the Result that was sent: "
+            if o.get("changed_after_sending"):
+                out.append({"what": "retained: " + pre + f"changed after it was sent, from {o['first']} to its present fields", "finding": None})
+            if o["stray_results"]:
+                out.append({"what": "result: " + pre + f"{o['stray_results']} results for no request", "finding": None})
+            if o["kind"].startswith("raise"):
+                out.append({"what": "result: " + pre + o["kind"], "finding": None})
+            for v in self._single.oracle(sub, o):
+                out.append({"what": v["what"].split(":")[0] + ": " + pre + v["what"].split(":", 1)[1].strip(), "finding": None})
+        return out
+
+    def key(self, case, obs):
+        if not any(o["calls"] for o in obs["reqs"]):
+            return None
+        return json.dumps([case["invs"], case.get("timeout_q"), [[h["req"], h["ids"], h["script"], h.get("health"), h.get("recover")] for h in case["history"]]])
+
+    def labels(self, case, obs):
+        tq = case.get("timeout_q", TIMEOUT_Q)
+        lb = [f"requests={len(case['history'])}", f"timeout_quarter_seconds={tq}"]
+        for h, o in zip(case["history"], obs["reqs"]):
+            lb.append("kind=" + o["kind"])
+            if tq % 4 and any(e[1] == 0 and (tq // 4) * 4 < e[2] < tq for e in h["script"]):
+                lb.append("ok_reply_in_the_last_fraction_of_a_second_before_the_timeout")
+            if h.get("health"):
+                lb.append("inverter_error_in_flight")
+            if len(o["usable"]) < len(h["ids"]):
+                lb.append("some_requested_inverters_unusable")
+            if any(x == 4 for x in o["outs"]):
+                lb.append("timeout_among_calls")
+        return sorted(set(lb))
+
+    def shrink(self, case):
+        hs = case["history"]
+        if len(hs) > 1:
+            for i in range(len(hs)):
+                yield {**case, "history": hs[:i] + hs[i + 1:]}
+        for i, h in enumerate(hs):
+            for k, e in enumerate(h["script"]):
+                if e[1] or e[3]:
+                    yield {**case, "history": hs[:i] + [{**h, "script": h["script"][:k] + [[e[0], 0, e[2], 0]] + h["script"][k + 1:]}] + hs[i + 1:]}
+            if h.get("health"):
+                yield {**case, "history": hs[:i] + [{k: v for k, v in h.items() if k != "health"}] + hs[i + 1:]}
